@@ -59,6 +59,11 @@ def rejections(model, scope):
                             for d in ast.walk(f.node):
                                 if isinstance(d, ast.Assign) and len(d.targets) == 1 and isinstance(d.targets[0], ast.Name) and d.targets[0].id == x.id:
                                     todo.append(d.value)
+                                elif isinstance(d, (ast.For, ast.While)) and any(
+                                        isinstance(c, ast.Call) and isinstance(c.func, ast.Attribute) and c.func.attr in ('append', 'extend', 'insert', 'add')
+                                        and isinstance(c.func.value, ast.Name) and c.func.value.id == x.id for c in ast.walk(d)):
+                                    # a collection filled in a loop: how much it holds is decided by what bounds the loop
+                                    todo.append(d.iter if isinstance(d, ast.For) else d.test)
             out.setdefault(f.construct, []).append(('%s[%s]' % (exc, ','.join(sorted(keys))), n))
     return out
 
